@@ -42,6 +42,7 @@ RULE = (
     "actions (so Discrete(1) cases are trivial); for Box action spaces, at least one judged value sat on a finite "
     "bound, i.e. the clip / clamp / saturated squashing really decided it (partly infinite boxes are never judged, "
     "hence trivial); distinct = distinct case descriptions"
+    " Added: the same mask object is handed over on a second consecutive call (bool / list / object forms always, every third numeric call) and judged against the contents the caller wrote; in vectorised multi-agent calls every third masked step gives one agent an all-zero mask row in one sub-environment (that row is not judged)"
 )
 ASSUMPTIONS = [
     "CPU only; accelerate / torch.compile paths are not driven",
